@@ -508,7 +508,11 @@ def eqv(a, b):
             return bl(a) == bl(b)
         bits = a.size() if is_sym(a) else b.size()
         return bv(a, bits) == bv(b, bits)
-    if isinstance(a, Slice):
+    if isinstance(a, Slice) or isinstance(b, Slice):
+        if isinstance(a, Slice) and a.obj is None:
+            return isinstance(b, Slice) and b.obj is None
+        if isinstance(b, Slice) and b.obj is None:
+            return False
         raise Unsupported('slice ==')
     return a == b
 
